@@ -55,7 +55,7 @@ pub fn def() -> PropDef {
             "composite aggregations: reference only for sources over single-valued fields (generated that way)",
             "storage is RamDirectory, NoMergePolicy, one indexing thread",
         ],
-        subs: vec![Box::new(Agg)],
+        subs: vec![Box::new(Agg), Box::new(FlushBatches)],
     }
 }
 
@@ -1229,5 +1229,105 @@ fn merge_plan(mut v: Vec<IntermediateAggregationResults>, shape: u8, kinds0: &st
             }
             Ok(v.pop().unwrap())
         }
+    }
+}
+
+// ------------------------------------------------------------------------------------------------
+/// `flush_batches`: sub-aggregations below a high-cardinality terms aggregation in a segment with several collection
+/// batches (> 2048 matching documents), the later batches touching only buckets that were created first: T terms in
+/// round robin, then a long tail of documents of the first term only.  Direct oracle: per term the document count, the
+/// best hit of `top_hits` (largest value) and the median of `percentiles` (DDSketch: within 2 %).
+#[derive(Clone, Debug, Serialize, Deserialize)]
+pub struct FlushCase {
+    pub terms: u16,
+    pub rounds: u8,
+    pub tail: u16,
+}
+pub struct FlushBatches;
+impl Sub for FlushBatches {
+    type Case = FlushCase;
+    fn name(&self) -> &'static str {
+        "flush_batches"
+    }
+    fn cases(&self, tier: Tier) -> u32 {
+        tier.pick(24, 300)
+    }
+    fn shards(&self, _t: Tier) -> usize {
+        8
+    }
+    fn strategy(&self, _tier: Tier) -> BoxedStrategy<FlushCase> {
+        (prop_oneof![1 => 3u16..20, 3 => 110u16..320], 2u8..12, prop_oneof![1 => 0u16..100, 3 => 2100u16..3200]).prop_map(|(terms, rounds, tail)| FlushCase { terms, rounds, tail }).boxed()
+    }
+    fn mandatory_labels(&self, _t: Tier) -> Vec<&'static str> {
+        vec!["terms>=100", "docs>2048", "tail_after_all_terms_were_seen"]
+    }
+    fn run(&self, c: &FlushCase, cx: &Ctx) -> CaseResult {
+        let mut sb = Schema::builder();
+        let fs = sb.add_text_field("s", STRING | FAST);
+        let fv = sb.add_u64_field("v", FAST);
+        let fu = sb.add_u64_field("uid", FAST);
+        let index = Index::create_in_ram(sb.build());
+        let mut w: tantivy::IndexWriter = crate::util::writer(&index, Default::default()).or_fail("INFRA:writer")?;
+        w.set_merge_policy(Box::new(tantivy::merge_policy::NoMergePolicy));
+        let t = c.terms as u64;
+        let mut per_term: BTreeMap<String, Vec<u64>> = BTreeMap::new();
+        let mut uid = 0u64;
+        let mut add = |w: &mut tantivy::IndexWriter, term: u64, v: u64, per_term: &mut BTreeMap<String, Vec<u64>>| -> CaseResult {
+            let key = format!("t{term:04}");
+            w.add_document(tantivy::doc!(fs => key.clone(), fv => v, fu => uid)).or_fail("INFRA:add")?;
+            per_term.entry(key).or_default().push(v);
+            uid += 1;
+            Ok(())
+        };
+        for r in 0..c.rounds as u64 {
+            for k in 0..t {
+                add(&mut w, k, 10 * (k + 1) + r % 3, &mut per_term)?;
+            }
+        }
+        for _ in 0..c.tail {
+            add(&mut w, 0, 5, &mut per_term)?;
+        }
+        w.commit().or_fail("INFRA:commit")?;
+        let n_docs = c.rounds as u64 * t + c.tail as u64;
+        let reader = index.reader().or_fail("reader_open_failed")?;
+        let searcher = reader.searcher();
+        if searcher.segment_readers().len() != 1 {
+            return Ok(());
+        }
+        let req: tantivy::aggregation::agg_req::Aggregations = serde_json::from_value(json!({
+            "by_term": {"terms": {"field": "s", "size": 1000, "order": {"_key": "asc"}},
+                "aggs": {"best": {"top_hits": {"size": 1, "sort": [{"v": "desc"}], "docvalue_fields": ["v"]}},
+                         "med": {"percentiles": {"field": "v", "percents": [50.0]}}}}
+        }))
+        .or_fail("INFRA:agg_req")?;
+        let coll = AggregationCollector::from_aggs(req, AggContextParams::new(Default::default(), index.tokenizers().clone()));
+        let res = searcher.search(&tantivy::query::AllQuery, &coll).or_fail("aggregation_failed")?;
+        let res: Value = serde_json::to_value(&res).or_fail("INFRA:to_value")?;
+        let buckets = res["by_term"]["buckets"].as_array().cloned().unwrap_or_default();
+        ensure!(buckets.len() == per_term.len(), "flush_batches:bucket_count", "{} buckets, {} terms", buckets.len(), per_term.len());
+        for b in &buckets {
+            let key = b["key"].as_str().unwrap_or("").to_string();
+            let vals = per_term.get(&key).ok_or_else(|| Failure::new("flush_batches:unknown_bucket", key.clone()))?;
+            ensure!(b["doc_count"].as_u64() == Some(vals.len() as u64), "flush_batches:doc_count", "term {key}: {} vs {}", b["doc_count"], vals.len());
+            let best = *vals.iter().max().unwrap();
+            let got = b["best"]["hits"].get(0).and_then(|h| h["sort"].get(0)).and_then(|x| x.as_u64());
+            ensure!(got == Some(best), "flush_batches:top_hits_lost", "term {key} ({} documents): top_hits returns {} (hits {}), the largest value is {best}; {n_docs} documents in one segment", vals.len(), b["best"]["hits"].get(0).map(|h| h["sort"].to_string()).unwrap_or("nothing".into()), b["best"]["hits"].as_array().map(|a| a.len()).unwrap_or(0));
+            let mut sorted = vals.clone();
+            sorted.sort();
+            let med = sorted[(sorted.len() - 1) / 2] as f64;
+            let med_hi = sorted[sorted.len() / 2] as f64;
+            let gotm = b["med"]["values"]["50.0"].as_f64();
+            let ok = gotm.map(|g| g >= med * 0.98 - 1e-9 && g <= med_hi * 1.02 + 1e-9).unwrap_or(false);
+            ensure!(ok, "flush_batches:percentiles_lost", "term {key} ({} documents): median {gotm:?}, expected about {med}..{med_hi}", vals.len());
+        }
+        cx.evals(buckets.len() as u64);
+        cx.label_if(c.terms >= 100, "terms>=100");
+        cx.label_if(n_docs > 2048, "docs>2048");
+        cx.label_if(c.terms >= 100 && c.tail > 2048, "tail_after_all_terms_were_seen");
+        if c.terms >= 100 && n_docs > 2048 {
+            cx.nontrivial(fp(c));
+        }
+        cx.sample(|| json!({"sub": "flush_batches", "terms": c.terms, "rounds": c.rounds, "tail": c.tail}));
+        Ok(())
     }
 }
